@@ -134,6 +134,14 @@ func runC10(c *Ctx) {
 			"[x](data:text/html,a 't')", "[r]: vbscript:x \"T\"\n\n[r] ![r]", "|a|b|\n|:-|-:|\n|c|d|", "[^1] t\n\n[^1]: n\nm", "t\n: d\ne", "~~s~~\nt", "# h\nx", "> q\nr", "1. a\n   b"} {
 			add("targeted", []byte(t))
 		}
+		// destinations and titles whose escapes are themselves escaped (one round of resolution
+		// must be all there is, with and without Unsafe), and the URL spellings of C04
+		for _, t := range []string{"[a](/u?x=&amp;lt;)", "[a](/u?x=&amp;amp;)", "![i](/p\\\\*q)", "[r]: /u&#38;#42;\n\n[r]", "[a](/u \"&amp;quot;\")", "<http://a.b/?x=&amp;lt;>", "[a](/%2541)", "[a](/&#37;41)", "[a](</u v> \"t\")"} {
+			add("targeted", []byte(t))
+		}
+		for _, t := range c04Targeted(c.R, 1500) {
+			add("url-spellings", []byte(t))
+		}
 	})
 	if c.Quick() {
 		parserModelCases(c, items, 6000)
